@@ -63,20 +63,22 @@ def direct(I, run, name, args, kwargs, node) -> Value:
         out: List[Value] = []
         for a in args:
             out.extend(I.iterate(run, I.resolve(run, a), node))
-        return run.alloc(HList(out))
+        return run.alloc(HList(out, oneshot=True))
     if name == "itertools.chain.from_iterable":
         out = []
         for a in I.iterate(run, I.resolve(run, args[0]), node):
             out.extend(I.iterate(run, I.resolve(run, a), node))
-        return run.alloc(HList(out))
+        return run.alloc(HList(out, oneshot=True))
     if name == "builtins.iter":
         if len(args) == 2:
             return App("hof", (C("iter-call"), Tup((args[0], args[1])), Tup(())))
         a = I.resolve(run, args[0])
         if isinstance(a, Ref) and isinstance(run.cell(a), HList):
-            return run.alloc(HList(list(run.cell(a).items)))   # a fresh cursor over the same elements
+            if run.cell(a).oneshot:
+                return a   # iter(iterator) is the iterator
+            return run.alloc(HList(list(run.cell(a).items), oneshot=True))   # a fresh cursor over the same elements
         if isinstance(a, Tup):
-            return run.alloc(HList(list(a.items)))
+            return run.alloc(HList(list(a.items), oneshot=True))
         return a
     if name == "builtins.next":
         a = I.resolve(run, args[0])
